@@ -1,6 +1,7 @@
 SPECIFICATION Spec
 CONSTANTS
   WorkerCpus <- E_Workers
+  LateWorkers <- E_Late
   WorkerGroup <- E_Groups
   WorkerLife <- E_Life
   MaxTicks = 0
